@@ -224,6 +224,11 @@ mod imp {
 mod imp {
     use super::*;
 
+    extern "Rust" {
+        fn miri_alloc(size: usize, align: usize) -> *mut u8;
+        fn miri_dealloc(ptr: *mut u8, size: usize, align: usize);
+    }
+
     pub struct Arena {
         /// raw boxes (null once killed); raw so that handing out slices does
         /// not conflict with Box's uniqueness
@@ -245,7 +250,11 @@ mod imp {
         }
         fn free(p: *mut u8, len: usize) {
             unsafe {
-                drop(Box::from_raw(core::ptr::slice_from_raw_parts_mut(p, len)));
+                if len == 0 {
+                    drop(Box::from_raw(core::ptr::slice_from_raw_parts_mut(p, len)));
+                } else {
+                    miri_dealloc(p, len, 1);
+                }
             }
         }
         pub fn load(&mut self, bufs: &[Buf], _poison: u8) {
@@ -256,10 +265,24 @@ mod imp {
             }
             self.ptrs.clear();
             for b in bufs {
-                let bx: Box<[u8]> = b.bytes.clone().into_boxed_slice();
-                let len = bx.len();
-                let raw = Box::into_raw(bx) as *mut u8;
-                self.ptrs.push((raw, len, true));
+                let len = b.bytes.len();
+                if len == 0 {
+                    let bx: Box<[u8]> = Vec::new().into_boxed_slice();
+                    self.ptrs.push((Box::into_raw(bx) as *mut u8, 0, true));
+                    continue;
+                }
+                // The interpreter's own allocation primitive, not the global
+                // allocator: that one ends in the `malloc` shim, whose blocks
+                // are 16-byte aligned, and a haystack that always starts on a
+                // 16-byte boundary hides every over-read in front of an
+                // unaligned start (seeded change C05-L). These blocks have
+                // alignment 1 and an address drawn from the interpreter's
+                // seeded generator.
+                unsafe {
+                    let raw = miri_alloc(len, 1);
+                    core::ptr::copy_nonoverlapping(b.bytes.as_ptr(), raw, len);
+                    self.ptrs.push((raw, len, true));
+                }
             }
         }
         pub fn refill(&mut self, i: usize, bytes: &[u8]) {
